@@ -12,6 +12,11 @@ CLAIMED = {
             "Every operation history of any length over a bounded key universe (closed search to a fixpoint, both group back-ends, hash plans from all-colliding to one-key-per-bucket) is executed on the real HashMap; every return value, the full contents, every lookup through both key forms and the structure invariants S1-S9 are compared in every state. A fixpoint covers histories of unbounded length, which no test can sample.",
             "Bounded key universe and hash-plan grid; tables up to 64 buckets; symmetry reduction justified by parametricity (DESIGN 3.7).",
             "5 (C01)"),
+    "C04": ("fault_enumeration",
+            "exhaustive single-fault injection (every callback class x every k) over model-checked states of the real HashMap",
+            "For every state of a closed (or seeded) explicit-state search, every operation of the full HashMap alphabet and every k, the k-th invocation of each user-callback class (Hash, BuildHasher, Eq/Equivalent, Clone, Drop, closures, Into, extend-iterator next, Default) panics; after catch_unwind the structure invariants, len == yielded == found, present-or-dropped-exactly-once (element registry), contents-unchanged on a hasher panic after a new allocation, a follow-up script and the final drop with allocator/registry ledgers are checked. Tracked and drop-glue-free element flavours, both back-ends; states with growth_left == 0 and tombstones (in-place rehash) are required to be covered.",
+            "One fault per operation; panics inside BuildHasher::clone are outside the alphabet; bounded universes/seeds as listed in the evidence.",
+            "5 (C04), 10"),
 }
 NOT_YET = "check not built yet in this revision of /verif (work in progress; see DESIGN.md section 5 for the planned model-checking design)"
 
